@@ -5,6 +5,16 @@ import json, subprocess, os
 ALL = ["C%02d" % i for i in range(1, 21)]
 # id -> (category, technique, level text, level note, design ref)
 CHECKS = {
+ "C10": ("exploration",
+  "exhaustive cross product of a boundary pool of ints and floats under every operator, conversion, formatting and integer built-in (range, enumerate, repetition, math.floor/ceil/round), under both Int representations, against a Python 3 (int/Fraction/range) batch oracle",
+  "Every operator and numeric built-in gives the mathematically exact result (or, for built-ins, fails) on the full cross product of the boundary pool, identically in the address-space-optimised and the fallback Int representation (selected by running workers under ulimit -v) and, in thorough, the generic representation via a build overlay.",
+  "Trusts CPython integers/fractions/range and the encoding of Starlark-vs-Python differences from doc/spec.md (cases the spec leaves open are counted as unjudged); magnitudes outside the pool are not covered.",
+  "DESIGN.md §3 C10"),
+ "C11": ("exploration",
+  "exhaustive enumeration of all ordered pairs and triples of a value pool (and all short lists for sorted/min/max) checked against the algebraic laws themselves",
+  "== is reflexive, symmetric, transitive and != its negation; equal values have equal stable hashes and are interchangeable as dict keys and set members; each ordered type has one total order consistent with == (int/float exactly, against rational arithmetic); sorted is a stable ordered permutation and min/max return the first extreme - on all pairs, all triples and all lists up to length 4 (longer 0/1-key lists for stability).",
+  "Laws only: comparisons that fail (unordered types, nesting beyond the limit) are outside the laws except that definedness must be symmetric; the pool is boundary-oriented.",
+  "DESIGN.md §3 C11"),
  "C05": ("model_checking",
   "stateless exploration of all thread schedules up to a preemption bound under a controlled scheduler that owns every interpreter-instruction boundary; generic deep-snapshot invariance of all shared state under every (value, operation) pair; separate free-running race-detector pass over operation pairs",
   "Every schedule (<= 2 preemptions quick, 3 threads / 3 preemptions thorough) of threads initialising and running one shared *Program on shared frozen values gives each thread exactly its solo transcript (probe trace, globals, error, backtrace, step count); no read-only or rejected operation, including every advertised method, writes to any shared object (generic reflect/unsafe snapshot); the race detector reports nothing for any pair of operations on any shared value or for concurrent Init.",
